@@ -76,9 +76,10 @@ def gen_mcase_removal(rng):
 
 def mk_logcase(seq, L, n_old, tclose, durs):
     """the log (mmap) Multi channel: n_old events are sent, then an old / new pair of executors is spawned (sequential_transition = seq), then
-    the remaining events are sent; close at tclose (no model: oracle only)"""
+    the remaining events are sent; close at tclose (model: MExec.v mlog_trace)"""
     line = "mexec chan=mmap_log seq=%d L=%d old=%d tclose=%d ; %s ; S" % (seq, L, n_old, tclose, " ".join("it:%d" % d for d in durs))
-    return Case(line, None, dict(profile="mlog", seq=seq, L=L, old=min(n_old, len(durs)), tclose=tclose, items=durs))
+    coq = "mlog_trace %s %d %d [%s]" % ("true" if seq else "false", L, min(n_old, len(durs)), "; ".join(str(d) for d in durs))   # model: MExec.v
+    return Case(line, coq, dict(profile="mlog", seq=seq, L=L, old=min(n_old, len(durs)), tclose=tclose, items=durs))
 
 def gen_logcase(rng):
     durs = [rng.choice([0, 10, 10, 20, 30]) for _ in range(rng.randint(0, 8))]
